@@ -169,6 +169,22 @@ func registerSyncPool() {
 		in.pools[p] = append(in.pools[p], a[1])
 		return nil
 	}
+	// strings.Clone / internal/stringslite.Clone (strconv's error paths): strings are immutable values here
+	for _, n := range []string{"strings.Clone", "internal/stringslite.Clone"} {
+		intrinsics[n] = func(in *Interp, fn *ssa.Function, a []Value) Value { return a[0] }
+	}
+	// sync.Once: the function runs on the first Do of each Once
+	intrinsics["(*sync.Once).Do"] = func(in *Interp, fn *ssa.Function, a []Value) Value {
+		p := a[0].(*Value)
+		if in.onces == nil {
+			in.onces = map[*Value]bool{}
+		}
+		if !in.onces[p] {
+			in.onces[p] = true
+			in.call(a[1], nil)
+		}
+		return nil
+	}
 	// trimming an opaque document: blobs carry no trailing white space in the model; the result aliases the argument
 	for _, n := range []string{"bytes.TrimSuffix", "bytes.TrimRight", "bytes.TrimSpace"} {
 		prev := intrinsics[n]
